@@ -74,6 +74,33 @@ def _mentions(t, v):
     return False
 
 
+def _linear_instances(et, es, depth=0):
+    out = []
+    sdt = sigma.sigma_def_of(et)
+    sds = [sigma.sigma_def_of(e) for e in es]
+    if sdt is None or any(d is None for d in sds) or not es:
+        return out
+    lo, hi = et.arg(0), et.arg(1)
+    same = z3.And(*[z3.And(e.arg(0) == lo, e.arg(1) == hi) for e in es])
+    x = z3.Int("lin!%d!%s" % (et.get_id(), "!".join(str(e.get_id()) for e in es)))
+    bt = sdt.body_at(x, [et.arg(i) for i in range(2, et.num_args())])
+    bs = [d.body_at(x, [e.arg(i) for i in range(2, e.num_args())]) for d, e in zip(sds, es)]
+
+    def R(t):
+        return z3.ToReal(t) if z3.is_int(t) else t
+    mixed = any(z3.is_real(t) for t in [et] + list(es))
+    cast = R if mixed else (lambda t: t)
+    tot_b = cast(bs[0])
+    tot_e = cast(es[0])
+    for b, e in zip(bs[1:], es[1:]):
+        tot_b = tot_b + cast(b)
+        tot_e = tot_e + cast(e)
+    out.append(z3.Implies(z3.And(same, z3.Implies(z3.And(lo <= x, x < hi), cast(bt) == tot_b)), cast(et) == tot_e))
+    if depth < 3 and sigma.sigma_def_of(bt) is not None and all(sigma.sigma_def_of(b) is not None for b in bs):
+        out.extend(_linear_instances(bt, bs, depth + 1))
+    return out
+
+
 def _reindex_selection(sd, e):
     from . import sv as _sv
     lo, hi = e.arg(0), e.arg(1)
@@ -236,6 +263,10 @@ def instances(formulas, opts=None):
             inst = _reindex_selection(sd, e)
             if inst is not None:
                 out.append(inst)
+    # linearity for designated applications (contracts pass opts["sigma_linear"] = [(total, [parts...])]):
+    #   (forall x in range: body_total(x) = sum_c body_c(x))  ->  total = sum_c part_c      (Skolemised like extensionality)
+    for et, es in (opts.get("sigma_linear") or []):
+        out.extend(_linear_instances(et, list(es)))
     if opts.get("ext", True) and len(sig_apps) <= 40:
         for (sd1, e1), (sd2, e2) in itertools.combinations(sig_apps, 2):
             mixed = e1.sort() != e2.sort()
